@@ -203,8 +203,9 @@ fn conv_rank(k: Kd) -> u32 {
 
 /// the type both operands of an arithmetic / comparison / bit operator are converted to
 pub fn usual(a: Kd, b: Kd, q: bool) -> Kd {
-    // `q`: the deviation of the pinned compiler recorded as a known finding — an enum whose underlying type is `uint`
-    // is converted to `int` when the other operand is `bool` or `int` (used only to *name* a failure, never to accept one)
+    // `q`: the defect repaired by fix 80dd7f9 (`fixed` record in known_findings.jsonl) — an enum whose underlying type is
+    // `uint` was converted to `int` when the other operand is `bool` or `int`. Used only to *name* a failure (so that a
+    // return of the defect is reported under the key of that record), never to accept one
     if q {
         match (a, b) {
             (Kd::Enum(_, true), Kd::Bool | Kd::Int) | (Kd::Bool | Kd::Int, Kd::Enum(_, true)) => return Kd::Int,
@@ -416,7 +417,8 @@ pub fn run_mix(w: &World, sx: &str, out: &mut Out, hist: &mut Hist) {
             return;
         }
         Err(_) => {
-            // a refusal is never a wrong constant (enum with an untyped literal, two different enums, float with `&`)
+            // a refusal is never a wrong constant (two different enums, float with `&`; until fix 80dd7f9 also an enum
+            // with an untyped literal, which is now done in the underlying type and judged like every other value)
             hist.add(if want == R::Reject { "mix:rejected-ill-typed" } else { "mix:rejected-by-front-end" });
             out.case(&base, "reject", "ok");
             return;
